@@ -1,2 +1,87 @@
-(* C02 - re-contraction operations preserve the set of basis functions exactly. (theorems added below as they are proved) *)
-From BSE Require Import Model.Val Model.Basis Model.Manip.
+(* C02 - re-contraction operations preserve the set of basis functions exactly.
+   Statements only (their text is in Proofs/FSDefs.v and Proofs/SortDefs.v), each closed by `exact`, instantiated at the
+   decimal-string carrier that is extracted and run against the implementation (is0_s / same_s / String.eqb / leb_v of
+   Model/Num.v and the literals translated from manip.py into Gen/GenConsts.v). *)
+From BSE Require Import Model.Val Model.Num Model.Basis Model.Manip Model.ManipS Model.Sort Gen.GenConsts.
+From BSE Require Import Proofs.FSDefs Proofs.SortDefs Proofs.NumDefs Proofs.NumInstance Proofs.NumOrder.
+From BSE Require Import Proofs.PruneFS Proofs.GeneralFS Proofs.SortFS Proofs.WfCompute.
+
+(* the carrier hypotheses hold for decimal strings *)
+Theorem decimal_strings_are_a_carrier : num_instance_stmt.
+Proof. exact num_instance. Qed.
+Print Assumptions decimal_strings_are_a_carrier.
+
+(* K, KP, KP1: the carrier instance and the two prune lemmas at that instance (abbreviations, not statements) *)
+Definition K : carrier_ok is0_s same_s String.eqb lit_make_general_zero lit_unc_seg_one lit_optimize_zero := num_instance.
+Definition KP : prune_shells_FS_stmt is0_s same_s String.eqb := @PruneFS.prune_shells_FS _ _ _ _ _ _ _ K.
+Definition KP1 : prune_shell_FS_stmt is0_s same_s := @PruneFS.prune_shell_FS _ _ _ _ _ _ _ K.
+
+Theorem prune_basis_FS : prune_basis_FS_stmt is0_s same_s String.eqb.
+Proof. exact (@GeneralFS.prune_basis_FS _ _ _ _ KP). Qed.
+Print Assumptions prune_basis_FS.
+
+Theorem uncontract_general_FS : uncontract_general_FS_stmt is0_s same_s String.eqb.
+Proof. exact (@GeneralFS.uncontract_general_FS _ _ _ _ KP). Qed.
+Print Assumptions uncontract_general_FS.
+
+Theorem uncontract_spdf_FS : uncontract_spdf_FS_stmt is0_s same_s.
+Proof. exact (@GeneralFS.uncontract_spdf_FS _ is0_s same_s). Qed.
+Print Assumptions uncontract_spdf_FS.
+
+Theorem make_general_FS : make_general_FS_stmt is0_s same_s String.eqb lit_make_general_zero.
+Proof. exact (@GeneralFS.make_general_FS _ _ _ _ _ _ _ K KP). Qed.
+Print Assumptions make_general_FS.
+
+(* on shells whose exponents are pairwise distinct prune_shell cannot raise *)
+Theorem prune_shell_total : prune_shell_total_stmt is0_s same_s.
+Proof. exact (@PruneFS.prune_shell_total _ is0_s same_s ""). Qed.
+Print Assumptions prune_shell_total.
+
+(* shape promises *)
+Theorem uncontract_general_shape : unc_gen_shape_stmt is0_s same_s String.eqb.
+Proof. exact (@GeneralFS.unc_gen_shape _ _ _ String.eqb KP1). Qed.
+Print Assumptions uncontract_general_shape.
+
+Theorem uncontract_spdf_shape : unc_spdf_shape_stmt is0_s.
+Proof. exact (@GeneralFS.unc_spdf_shape _ is0_s). Qed.
+Print Assumptions uncontract_spdf_shape.
+
+Theorem uncontract_spdf_total : unc_spdf_total_stmt is0_s.
+Proof. exact (@GeneralFS.unc_spdf_total _ is0_s). Qed.
+Print Assumptions uncontract_spdf_total.
+
+Theorem make_general_shape : make_general_shape_stmt is0_s same_s String.eqb lit_make_general_zero.
+Proof. exact (@GeneralFS.make_general_shape _ _ _ _ _ _ _ K). Qed.
+Print Assumptions make_general_shape.
+
+(* sorting: the contraction order (from the float key of sort.py) is any permutation of the contraction indices *)
+Theorem sort_shells_FS : sort_shells_FS_stmt is0_s same_s leb_v "".
+Proof. exact (@SortFS.sort_shells_FS _ is0_s same_s leb_v ""). Qed.
+Print Assumptions sort_shells_FS.
+
+Theorem sort_shell_exponents_decreasing : sort_shell_sorted_stmt leb_v "".
+Proof. exact (@SortFS.sort_shell_sorted _ leb_v "" leb_v_order). Qed.
+Print Assumptions sort_shell_exponents_decreasing.
+
+Theorem sort_shells_by_increasing_momentum : sort_shells_order_stmt leb_v "".
+Proof. exact (@SortFS.sort_shells_order _ leb_v ""). Qed.
+Print Assumptions sort_shells_by_increasing_momentum.
+
+Theorem sort_shell_idempotent : sort_shell_idem_stmt leb_v "".
+Proof. exact (@SortFS.sort_shell_idem _ leb_v ""). Qed.
+Print Assumptions sort_shell_idempotent.
+
+(* the extracted order agrees with float(a) <= float(b) wherever both strings parse *)
+Theorem leb_v_is_leb_s_on_numbers :
+  forall a b x y, parse_num a = Some x -> parse_num b = Some y -> leb_v a b = leb_s a b.
+Proof. exact leb_v_agrees. Qed.
+Print Assumptions leb_v_is_leb_s_on_numbers.
+
+(* non-vacuity: a concrete basis element with a fused sp shell, a shared exponent written in two notations and a
+   general contraction with a zero-padded column and a free primitive satisfies the hypotheses *)
+Definition demo_shells : list (shell string) :=
+  [ mkShell "gto" "" [0%Z; 1%Z] ["5.0"; "1.2"] [["0.1"; "0.9"]; ["0.2"; "0.8"]];
+    mkShell "gto" "" [0%Z] ["30.0"; "5.00"; "0.4"] [["0.3"; "0.7"; "0.0"]; ["0.0"; "0.0"; "1.0"]];
+    mkShell "gto_spherical" "" [2%Z] ["0.8"] [["1.0"]] ].
+Example demo_wf : wf_shells is0_s demo_shells /\ Forall (fused_low 0 (N:=string)) demo_shells.
+Proof. split; [apply wf_shellsb_ok | apply fused_lowb_ok]; vm_compute; reflexivity. Qed.
